@@ -187,14 +187,15 @@ static void stubThreadStart(void* instance, U32 tid, U32 arg) {
 static void stubOther(void* instance) { (void)instance; }
 
 /* spawnx: every candidate export has its own entry function that records WHICH export ran */
-static struct { int idx; U32 tid; U32 arg; int childOk; } xruns[4096];
+static struct { int idx; U32 tid; U32 arg; int childOk; void* parent; void* mem; } xruns[4096];
 static int nXruns = 0;
 static void xrecord(int idx, void* instance, U32 tid, U32 arg) {
     StubInstance* c = (StubInstance*)instance;
     pthread_mutex_lock(&startLock);
-    if (nXruns < 4096) {
+    if (nXruns < 4095) {
         xruns[nXruns].idx = idx; xruns[nXruns].tid = tid; xruns[nXruns].arg = arg;
         xruns[nXruns].childOk = c->parent != NULL && c->parent->parent == NULL && c->sharedMem == &stubShared;
+        xruns[nXruns].parent = c->parent; xruns[nXruns].mem = c->sharedMem;
         nXruns++;
     }
     pthread_mutex_unlock(&startLock);
@@ -593,10 +594,85 @@ int main(void) {
                 printf(" ran");
                 /* sorted by tid (selection) */
                 for (i = 0; i < nXruns; i++) for (j = i + 1; j < nXruns; j++) if (xruns[j].tid < xruns[i].tid) {
-                    int a = xruns[i].idx, c = xruns[i].childOk; U32 t = xruns[i].tid, g = xruns[i].arg;
-                    xruns[i] = xruns[j]; xruns[j].idx = a; xruns[j].tid = t; xruns[j].arg = g; xruns[j].childOk = c;
+                    xruns[4095] = xruns[i]; xruns[i] = xruns[j]; xruns[j] = xruns[4095];
                 }
                 for (i = 0; i < nXruns; i++) printf("%s%d:%u:%u:%d", i ? "," : " ", xruns[i].idx, xruns[i].tid, xruns[i].arg, xruns[i].childOk);
+                if (nXruns == 0) printf(" -");
+                printf(" children %d\n", nChildren);
+                fflush(stdout);
+                _exit(0);
+            }
+            {
+                static char rep[16384]; size_t got = 0; ssize_t r;
+                close(ep[1]);
+                while ((r = read(ep[0], rep + got, sizeof rep - 1 - got)) > 0) { got += (size_t)r; if (got >= sizeof rep - 1) break; }
+                while (r > 0) { char sink[4096]; r = read(ep[0], sink, sizeof sink); }
+                close(ep[0]);
+                rep[got] = 0;
+                waitpid(pid, &st, 0);
+                if (!(WIFEXITED(st) && WEXITSTATUS(st) == 0)) {
+                    char kind[64] = "unknown", fn[64] = "?"; char* q = strstr(rep, "ERROR: AddressSanitizer: ");
+                    if (q) sscanf(q, "ERROR: AddressSanitizer: %63s", kind);
+                    q = strstr(rep, " in wasi__");
+                    if (q) sscanf(q, " in %63s", fn);
+                    printf("crash child asan:%s in %s (status %d)\n", kind, fn, st);
+                }
+            }
+
+        } else if (strcmp(tok[0], "spawnm") == 0 && nt >= 5) {
+            /* spawnm childFirst argbase M {k namehex*k}*M ncalls inst*ncalls : SEVERAL module instances in one process, each with its
+               own export table (every export of every instance has its own entry function) and its own shared memory; the
+               calls are issued one after the other (each started thread is awaited) by the named instances.
+               -> ret r,.. ran callerInst:entryInst:entryExport:tid:arg:childOk,.. children N */
+            int cfirst = atoi(tok[1]); U32 argbase = (U32)strtoul(tok[2], NULL, 10); int M = atoi(tok[3]);
+            pid_t pid; int st = 0; int ep[2];
+            if (M < 1 || M > 8) { printf("err arity\n"); continue; }
+            fflush(stdout);
+            if (pipe(ep) != 0) { printf("err pipe\n"); continue; }
+            pid = fork();
+            if (pid == 0) {
+                static StubInstance insts[8]; static wasmMemory mems[8]; static int ownerInst[16], ownerExp[16];
+                int pos = 4, m, i, j, pool = 0, ncalls, tries, bad = 0; I32 rets[64];
+                close(ep[0]); dup2(ep[1], 2);
+                h_child_first = cfirst;
+                for (m = 0; m < M && !bad; m++) {
+                    int k; wasmFuncExport* exps;
+                    if (pos >= nt) { bad = 1; break; }
+                    k = atoi(tok[pos++]);
+                    if (k < 0 || pool + k > 15 || pos + k > nt) { bad = 1; break; }
+                    exps = (wasmFuncExport*)calloc((size_t)k + 1, sizeof(wasmFuncExport));
+                    for (i = 0; i < k; i++) { size_t l; ownerInst[pool] = m; ownerExp[pool] = i; exps[i].func = (wasmFunc)xentries[pool++]; exps[i].name = (char*)unhex(tok[pos++], &l, 1); }
+                    memset(&insts[m], 0, sizeof insts[m]);
+                    insts[m].common.funcExports = exps; insts[m].common.newChild = stubNewChild; insts[m].sharedMem = &mems[m];
+                }
+                if (bad || pos >= nt) { printf("err arity\n"); fflush(stdout); _exit(0); }
+                ncalls = atoi(tok[pos++]);
+                if (ncalls < 0 || ncalls > 64 || pos + ncalls != nt) { printf("err arity\n"); fflush(stdout); _exit(0); }
+                for (i = 0; i < ncalls; i++) {
+                    int who = atoi(tok[pos + i]), before;
+                    if (who < 0 || who >= M) { printf("err arity\n"); fflush(stdout); _exit(0); }
+                    pthread_mutex_lock(&startLock); before = nXruns; pthread_mutex_unlock(&startLock);
+                    rets[i] = (I32)wasi__threadX2Dspawn(&insts[who].common, argbase + (U32)i);
+                    if (rets[i] >= 0) for (tries = 0; tries < 2000; tries++) {      /* the started thread records itself */
+                        int done; pthread_mutex_lock(&startLock); done = nXruns > before; pthread_mutex_unlock(&startLock);
+                        if (done) break;
+                        usleep(1000);
+                    }
+                }
+                usleep(5000);
+                printf("ret");
+                for (i = 0; i < ncalls; i++) printf("%s%d", i ? "," : " ", rets[i]);
+                if (ncalls == 0) printf(" -");
+                printf(" ran");
+                for (i = 0; i < nXruns; i++) for (j = i + 1; j < nXruns; j++) if (xruns[j].tid < xruns[i].tid) {
+                    xruns[4095] = xruns[i]; xruns[i] = xruns[j]; xruns[j] = xruns[4095];
+                }
+                for (i = 0; i < nXruns; i++) {
+                    int caller = -1, ok;
+                    for (m = 0; m < M; m++) if (xruns[i].parent == (void*)&insts[m]) caller = m;
+                    ok = caller >= 0 && xruns[i].mem == (void*)&mems[caller];       /* a fresh child of the CALLING instance sharing ITS memory */
+                    printf("%s%d:%d:%d:%u:%u:%d", i ? "," : " ", caller, ownerInst[xruns[i].idx], ownerExp[xruns[i].idx], xruns[i].tid, xruns[i].arg, ok);
+                }
                 if (nXruns == 0) printf(" -");
                 printf(" children %d\n", nChildren);
                 fflush(stdout);
